@@ -697,7 +697,7 @@ class AggregateAssignmentMatrixGenerator:
         n_conns = []
         for i, node in enumerate(nodes):
             if i in n_conn_override:
-                n_conns.append(n_conn_override[i])
+                n_conns.append([n for n in n_conn_override[i] if n <= max_conn[i]])
             else:
                 n_conns.append(self.get_node_conns(node, max_conn[i]))
 
